@@ -153,6 +153,8 @@ def eval_adverb_each_left(f, a, b, backend):
         Examples: 1,:\[2 3 4]  -->  [[1 2] [1 3] [1 4]]
                   1,:/[2 3 4]  -->  [[2 1] [3 1] [4 1]]
     """
+    if is_atom(b) and not is_empty(b):
+        return f(a,b)
     b = backend.str_to_chr_arr(b) if isinstance(b,str) else b
     return backend.kg_asarray([f(a,x) for x in b])
 
@@ -161,6 +163,8 @@ def eval_adverb_each_right(f, a, b, backend):
     """
     see: eval_dyad_adverb_each_left
     """
+    if is_atom(b) and not is_empty(b):
+        return f(b,a)
     b = backend.str_to_chr_arr(b) if isinstance(b,str) else b
     return backend.kg_asarray([f(x,a) for x in b])
 
@@ -207,6 +211,13 @@ def eval_dyad_adverb_iterate(f, a, b):
     return b
 
 
+def _has_zero(a, backend):
+    try:
+        return bool((backend.to_numpy(a) == 0).any()) if backend.is_backend_array(a) else bool((a == 0).any())
+    except Exception:
+        return True
+
+
 def eval_adverb_over(f, a, op, backend):
     """
         f/a                                                       [Over]
@@ -235,11 +246,12 @@ def eval_adverb_over(f, a, op, backend):
             return np_backend.subtract.reduce(a)
         elif safe_eq(op.a, '*') and hasattr(np_backend.multiply,'reduce'):
             return np_backend.multiply.reduce(a)
-        elif safe_eq(op.a, '%') and hasattr(np_backend.divide,'reduce'):
+        elif safe_eq(op.a, '%') and hasattr(np_backend.divide,'reduce') and not _has_zero(a[1:], backend):
+            # a zero divisor yields :undefined, which only the verb itself produces
             return np_backend.divide.reduce(a)
-        elif safe_eq(op.a, '&') and a.ndim == 1:
+        elif safe_eq(op.a, '&') and a.ndim == 1 and a.dtype != 'O':
             return np_backend.min(a)
-        elif safe_eq(op.a, '|') and a.ndim == 1:
+        elif safe_eq(op.a, '|') and a.ndim == 1 and a.dtype != 'O':
             return np_backend.max(a)
         elif safe_eq(op.a, ',') and np_backend.isarray(a) and a.dtype != 'O':
             return a if a.ndim == 1 else np_backend.concatenate(a, axis=0)
